@@ -29,19 +29,24 @@ from harness import gen_registry as G
 
 G.install_stubs()
 
+USES_MODELS = ['C08']     # Priors.createPrior (op c08.create of driver_c08): the prior a class name + keys + values denote
+
 RULE = ('input files over all built-in sections (Chemistry+gases, Temperature, Pressure, Planet, Star, Model+'
         'contributions, Observation, Instrument, Optimizer), selector drawn from every input_keywords() entry in '
         'random letter case, 0..all constructor keys with values typed after the default (numeric literals in many '
         'spellings, bool words, lists, strings, quoted strings), composite + selectors, custom python_file classes, '
         'and a malformed stream (unknown/mistyped selector, unknown key, misspelt section, missing selector, bad mixin '
-        'order, unknown contribution). distinct non-trivial = distinct (stream, tuple of (section, selector, sorted keys))')
+        'order, unknown contribution); [Fitting] sections giving 1-3 parameters a prior as text (four classes, any documented '
+        'key subset incl. lin_std without lin_mean, literal spellings of the documented syntax). distinct non-trivial = distinct (stream, tuple of (section, selector, sorted keys))')
 ASSUMPTIONS = ['ConfigObj parsing is not modelled: the model receives the tree of raw strings / string lists the '
                'generator wrote; every run checks that ConfigObj(file) returns exactly that tree',
                'Python float(str) = the PEP-515 decimal literal grammar of Factory.parseNumber (ASCII), value compared '
                'exactly against the correctly rounded Fraction',
                'str.lower() restricted to ASCII',
                'inspect.getfullargspec / inspect.getmembers order (by name) as documented',
-               'ast-based parse_priors is not modelled (only the prior class look-up is)',
+               'ast-based parse_priors is not modelled here (the prior class look-up is; the prior that a class name with keys '
+               'and numbers denotes is Priors.createPrior of the C08 model, to which the priors of [Fitting] definitions are '
+               'compared after their keys were seen to enter the constructor)',
                'constructor bodies are not modelled: calls are recorded on entry; pypolychord/dyPolyChord are import '
                'stubs so that the two optional optimizers are discoverable',
                'the CLI comparison uses scratch pickle opacities (no line lists), rel 1e-12',
@@ -1635,6 +1640,125 @@ def lookup_stream(ctx):
         ctx.case(key=('prior', n), bucket='lookup:prior')
 
 
+# ----------------------------------------------------------------------------- [Fitting] prior definitions
+PRIOR_CLASSES = ['Uniform', 'LogUniform', 'Gaussian', 'LogGaussian']
+
+
+def gen_prior_case(rng, i):
+    """one input file whose [Fitting] section gives 1-3 parameters a prior as text: each of the four documented prior classes
+    (any letter case of the name) with a random subset of its documented keys in random order (`lin_std` without `lin_mean`,
+    `lin_bounds` next to `bounds`, no key at all, …), literals in the spellings of the documented syntax (generator and
+    renderer of harness/c08.py)"""
+    from harness import c08
+    names = ['H2O', 'T', 'planet_radius'][:int(rng.integers(1, 4))]
+    priors = []
+    for j, n in enumerate(names):
+        call = c08.gen_call(rng, i + j)
+        priors.append([n, c08.render(rng, call), [[k, int(c), [str(t) for t in toks]] for k, c, toks in call['args']]])
+    us = [0.5, 0.8413447460685429, 0.1, 0.9] + [float(u) for u in rng.random(2)]
+    return dict(kind='fitting-prior', priors=priors, us=us)
+
+
+def eval_prior_case(ctx, case, scratch):
+    """the keys written in a prior definition of the [Fitting] section: (i) each reaches the constructor of the prior class the
+    name selects, as a keyword with the value given (recorded on entry, like every other component); (ii) the prior the parser
+    hands out is the prior of that class with those arguments: class, space, boundaries and sample(u) are those of
+    Priors.createPrior (the C08 model, driver_c08) on the keys and numbers of the text, so a key that is accepted but has no
+    effect on the prior is seen."""
+    from harness import c08
+    import taurex.core.priors as TP
+    from taurex.parameter import ParameterParser
+    fn = os.path.join(scratch, 'prior_case.par')
+    with open(fn, 'w') as f:
+        f.write('[Fitting]\n')
+        for n, text, _ in case['priors']:
+            f.write('%s:fit = True\n%s:prior = "%s"\n' % (n, n, text))
+    entered = []
+    saved = {}
+
+    def wrap(cls):
+        orig = cls.__dict__['__init__']
+
+        def init(self, *a, **kw):
+            if type(self) is cls:
+                entered.append((cls.__name__, list(a), dict(kw)))
+            return orig(self, *a, **kw)
+        saved[cls] = orig
+        cls.__init__ = init
+    for cn in PRIOR_CLASSES:
+        wrap(getattr(TP, cn))
+    small = dict(kind='fitting-prior', priors=case['priors'], us=case['us'])
+    try:
+        try:
+            pp = ParameterParser()
+            with contextlib.redirect_stdout(io.StringIO()):
+                pp.read(fn)
+                fit = pp.generate_fitting_parameters()
+            err = None
+        except Exception as e:
+            fit, err = None, e
+    finally:
+        for cls, orig in saved.items():
+            cls.__init__ = orig
+    if err is not None:
+        # documented class names with documented keys: a rejection is only in order for a degenerate distribution
+        ctx.malformed_outcome('fitting-prior:rejected:' + type(err).__name__)
+        ctx.case(key=None, bucket='fitting-prior:rejected')
+        return
+    us = [float(u) for u in case['us']]
+    zs = [c08.ndtri(u) for u in us]
+    z10, z90 = c08.z1090()
+    for idx, (n, text, args) in enumerate(case['priors']):
+        here = dict(small, param=n)
+        cname = text.split('(')[0].strip()
+        cls = [c for c in PRIOR_CLASSES if cname in (c, c.lower(), c.upper())][0]
+        keys = tuple(sorted(k for k, _, _ in args))
+        ctx.case(key=('fitting-prior', cls, keys), sample=dict(text=text), bucket='fitting-prior:%s(%s)' % (cls, ','.join(keys)))
+        p = fit[n]['prior']
+        want_kw = {k: (float(t[0]) if c == 0 else [float(x) for x in t]) for k, c, t in args}
+        # (i) constructor entry
+        got = entered[idx] if idx < len(entered) else None
+        got_kw = None if got is None else {k: ([float(x) for x in v] if isinstance(v, (list, tuple)) else float(v))
+                                           for k, v in got[2].items()}
+        if got is None or got[0] != cls or got[1] or got_kw != want_kw:
+            ctx.violation('fitting-prior:key-not-reaching-constructor:%s' % cls,
+                          'a key of a [Fitting] prior definition does not reach the constructor of the selected prior class '
+                          'with the value given', here, dict(want=[cls, want_kw], got=None if got is None else [got[0], got[1], got_kw]))
+            continue
+        kwargs = {k: (tuple(v) if isinstance(v, list) else v) for k, v in want_kw.items()}
+        if c08.outside_quantifier(cls, kwargs):
+            ctx.malformed_outcome('fitting-prior:degenerate-width')
+            continue
+        # (ii) the prior handed out is the prior of that class with those arguments
+        fcall = dict(fn=cls, args=[(k, c, [float(x) for x in t]) for k, c, t in args])
+        d = ctx.model('C08').call('c08.create', C.F(z10), C.F(z90), C.F(0.5), C.F(0.25), *c08.call_tokens(fcall, C.F),
+                                  C.L(us), C.L(zs), C.L([]))
+        mcode = d.nat()
+        if mcode != 0:
+            ctx.malformed_outcome('fitting-prior:model-outcome-%d' % mcode)
+            continue
+        if type(p).__name__ != cls:
+            ctx.violation('fitting-prior:class:%s' % cls, 'the prior of a [Fitting] definition is not an instance of the class '
+                          'its name selects', here, dict(got=type(p).__name__))
+            continue
+        impl = c08.observe(p, us, [])
+        mod = c08.read_eval(d)
+        nm = len(ctx.mismatches)
+        c08.compare_eval(ctx, 'C15 [Fitting] prior vs Priors.createPrior on the written keys', impl, mod, here)
+        if len(ctx.mismatches) > nm:
+            ctx.violation('fitting-prior:key-without-effect:%s(%s)' % (cls, ','.join(keys)),
+                          'a prior defined in the [Fitting] section is not the prior of the named class with the keys and values '
+                          'written: a key reached the constructor but the prior handed out does not carry its value', here,
+                          dict(impl={k: impl[k] for k in ('mode', 'lo', 'hi', 'samples')},
+                               model={k: mod[k] for k in ('mode', 'lo', 'hi', 'samples')}))
+
+
+def prior_stream(ctx, scratch):
+    for i in range(ctx.n(60, 600)):
+        eval_prior_case(ctx, gen_prior_case(ctx.rng, i), scratch)
+
+
+
 # ----------------------------------------------------------------------------- documentation predicates
 def doc_field(sec):
     return SEC_FIELD.get(sec, sec)
@@ -2501,6 +2625,7 @@ def run(ctx):
                         v['case'] = dict(kind='file', file=mc['file'], customs=[], custom_src={},
                                          malformed=mc['malformed'], flavour='targeted', meta=mc['meta'])
         extension_stream(ctx, s.scratch)
+        prior_stream(ctx, s.scratch)
 
 
 def prepare_aux(scratch):
@@ -2517,6 +2642,9 @@ def replay(ctx, case):
     with Session(ctx) as s:
         prepare_aux(s.scratch)
         case = unportable(case, s.scratch)
+        if kind == 'fitting-prior':
+            eval_prior_case(ctx, case, s.scratch)
+            return
         if kind == 'docs':
             check_docs(ctx, s.scratch)
         elif kind == 'transform':
